@@ -1,4 +1,5 @@
 """C14 -- circle and sphere parameters (X1, X2, U1). Narrow."""
+from ..rules import misc_rules as MI
 from ..rules import hyp_rules as H
 from ..rules import cache_rules as CA
 from ..rules import shape_rules as S
@@ -20,11 +21,13 @@ def run(ctx):
     ctx.do(S.rule_sh2, only={"short_arc", "right_to_left", "arc_include", "circle_angles", "sphere_through", "circle_through", "sphere_inversion", "kleinian_to_poincare", "poincare_to_halfspace", "Segment._compute_aux_data"})
     ctx.do(S.rule_ax1, [S.CORE, H.HYP], scope=ctx.scope(ENTRIES))
     ctx.do(SI.rule_x3)
+    ctx.do(SI.rule_mean2)
+    ctx.do(MI.rule_enum1, [H.HYP, "geometry_tools/drawtools.py"])
     ctx.do(PR.rule_s2)
     ctx.do(DT.rule_lk1, [H.HYP], scope=ctx.scope(ENTRIES))
     ctx.do(CA.rule_c2, "ProjectiveObject", scope=ctx.scope(ENTRIES))
     ctx.do(S.rule_sh5, only=S.SH5_C14)
-    ctx.do(S.rule_hom1, parts=("hyp",), only=S.SH5_C14)
+    ctx.do(S.rule_hom1, parts=("hyp",), only=set(S.SH5_C14) | {"Segment._compute_aux_data"})
     ctx.do(SI.rule_mean1, [SI.HYP], scope=ctx.scope(ENTRIES))
     ctx.do(SI.rule_pt1, [SI.HYP], scope=ctx.scope(ENTRIES))
     ctx.do(u1, ENTRIES, min_functions=15)
